@@ -211,6 +211,15 @@ def get_app(map_key, memfile, maxbody, tag=''):
             elif op == 'J':
                 info['json'] = rq.json
                 outs.append('j')
+            elif op == 'Y':      # the longest str the form views hold (forms, POST, params)
+                longest = 0
+                for view in (rq.forms, rq.POST, getattr(rq, 'params', {})):
+                    for v in view.values():
+                        for x in (v if isinstance(v, list) else [v]):
+                            if isinstance(x, (str, bytes)):
+                                longest = max(longest, len(x))
+                info['longest_text'] = longest
+                outs.append('y')
             else:
                 raise AssertionError(op)
     app.route('/x', method='POST', callback=handler)
